@@ -24,9 +24,9 @@ EXN = vlib.exn_table()
 
 
 # ------------------------------------------------------------------ token layouts
-def obj(label, cls, key=None, pub_attrs=True, ec_wrapped=True, ktype=None):
-    """key: ksrxml key dict (has 'priv') or None"""
-    return {"label": label, "cls": cls, "key": key, "pub_attrs": pub_attrs, "ec_wrapped": ec_wrapped, "ktype": ktype}
+def obj(label, cls, key=None, pub_attrs=True, ec_wrapped=True, ktype=None, attr_pad=0):
+    """key: ksrxml key dict (has 'priv') or None; attr_pad: leading zero octets in the RSA integer attributes the token reports"""
+    return {"label": label, "cls": cls, "key": key, "pub_attrs": pub_attrs, "ec_wrapped": ec_wrapped, "ktype": ktype, "attr_pad": attr_pad}
 
 
 def pair(label, key, **kw):
@@ -42,7 +42,7 @@ def build_token(modules) -> emu.Token:
             for o in s["objs"]:
                 kt = o["ktype"]
                 objs.append(emu.Obj(CLS[o["cls"]], o["label"], o["key"]["priv"] if o["key"] else None, key_type=kt,
-                                    pub_attrs=o["pub_attrs"], ec_wrapped=o["ec_wrapped"]))
+                                    pub_attrs=o["pub_attrs"], ec_wrapped=o["ec_wrapped"], attr_pad=o.get("attr_pad", 0)))
             sl.append(emu.Slot(s["id"], s.get("login_ok", True), objs))
         mods[f"emu:{mi}"] = sl
     return emu.Token(mods)
@@ -229,7 +229,12 @@ def run_sign(sc: dict):
                                response_policy={"num_bundles": max(1, nb), "validate_signatures": sc.get("validate", True)},
                                ksk_policy={"publish_safety": "P10D", "retire_safety": "P10D", "max_signature_validity": "P21D", "min_signature_validity": "P21D",
                                            "max_validity_overlap": "P16D", "min_validity_overlap": "P9D", "ttl": sc.get("ttl", 172800)}, hsm=hsm)
-    req = skrgen.k_request(sc["request"])
+    if sc.get("via_xml"):
+        # the request as the tools get it: the KSR document, read by the loader (timestamps, identifiers and all)
+        from kskm.ksr.load import request_from_xml
+        req = request_from_xml(ksrxml.render_ksr(sc["request"]))
+    else:
+        req = skrgen.k_request(sc["request"])
     raws = []
     orig_raw = ksign.make_raw_rrsig
 
